@@ -55,7 +55,7 @@ def runner(prop, fam, tier, seed, replay=None):
                            "node, or a batch of Allocate requests entering at one node of a three-node loopback HTTP cluster; after every event the node "
                            "is asked GetOwner, IsLocalOwner, the ranked list and the effective owner for every subscriber id of the block "
                            "(owner_answers_judged = events x ids). non-trivial = the event changed the configured peer set or health view.")
-        tmp = evp + ".tmp"
+        tmp = evp + ".tmp%d" % os.getpid()
         json.dump(ev, open(tmp, "w"), indent=1, sort_keys=True)
         os.replace(tmp, evp)
     except Exception:
